@@ -5,22 +5,21 @@ From MS Require Import Proofs.Tactics Proto Spec.AppView Spec.C11.
 Lemma rpc_parse_app s a b : rpc_parse (rpc_parse s a) b = rpc_parse s (a ++ b).
 Proof. unfold rpc_parse. rewrite fold_left_app. reflexivity. Qed.
 
-Lemma rpc_repl_tcp_app s ip port a b :
-  rpc_repl_tcp (rpc_parse s a) ip port b =
-  (rpc_parse s (a ++ b), snd (rpc_repl_tcp s ip port (a ++ b))).
-Proof. unfold rpc_repl_tcp. rewrite rpc_parse_app. destruct (_ =? R_END); reflexivity. Qed.
+(* a flow identified as RPC is the fold of rpc_repl_tcp over its segments *)
+Fixpoint rpc_outs (ip : ipaddr) (port : N) (r : rpc_st) (segs : list bytes) : list (option bytes) :=
+  match segs with
+  | [] => []
+  | s :: rest => let '(r', o) := rpc_repl_tcp r ip port s in o :: rpc_outs ip port r' rest
+  end.
 
-Definition rpc_tcb (st : N) (acc : bytes) : tcb :=
-  {| t_smack := st; t_proto := PROTO_RPC_TCP; t_pstate := Some (PRpc (rpc_parse (rpc_new R_FRAG) acc)) |}.
-
-(* once the flow is identified as RPC, each further segment continues the same parser *)
-Lemma rpc_stream_tail E clk ci ip port :
+Lemma rpc_flow E clk ci ip port :
   ci_ip_dst ci = Some ip -> ci_port_dst ci = Some port ->
-  forall segs st acc,
-    tcp_stream E clk ci (rpc_tcb st acc) segs = Ok (map (rpc_expected ip port) (boundaries acc segs)).
+  forall segs st r,
+    tcp_stream E clk ci {| t_smack := st; t_proto := PROTO_RPC_TCP; t_pstate := Some (PRpc r) |} segs
+    = Ok (rpc_outs ip port r segs).
 Proof.
-  intros Hip Hport. induction segs as [|s rest IH]; intros st acc; [reflexivity|].
-  cbn [tcp_stream boundaries map]. unfold rpc_tcb in *.
+  intros Hip Hport. induction segs as [|s rest IH]; intros st r; [reflexivity|].
+  cbn [tcp_stream rpc_outs].
   unfold proto_repl_tcp at 1. cbn [t_proto].
   change (PROTO_RPC_TCP =? PROTO_NONE) with false. cbv iota.
   unfold dispatch. cbn [t_proto].
@@ -28,28 +27,184 @@ Proof.
   change (PROTO_RPC_TCP =? PROTO_SSH) with false. change (PROTO_RPC_TCP =? PROTO_GHOST) with false.
   change (PROTO_RPC_TCP =? PROTO_RPC_TCP) with true. cbv iota.
   rewrite Hip, Hport. cbn [t_pstate t_smack].
-  rewrite rpc_repl_tcp_app. cbn [bind].
+  destruct (rpc_repl_tcp r ip port s) as [r' o]. cbn [bind].
   rewrite IH. cbn [bind]. reflexivity.
 Qed.
 
 Theorem rpc_stream E clk ci ip port s rest :
   ci_ip_dst ci = Some ip -> ci_port_dst ci = Some port ->
   tcp_first_id E s = Some PROTO_RPC_TCP ->
-  tcp_stream E clk ci tcb_new (s :: rest) = Ok (map (rpc_expected ip port) (boundaries [] (s :: rest))).
+  tcp_stream E clk ci tcb_new (s :: rest) = Ok (rpc_outs ip port (rpc_new R_FRAG) (s :: rest)).
 Proof.
-  intros Hip Hport Hid. cbn [tcp_stream boundaries map app].
+  intros Hip Hport Hid. cbn [tcp_stream rpc_outs].
   unfold proto_repl_tcp at 1. change (t_proto tcb_new =? PROTO_NONE) with true. cbv iota.
   unfold tcp_first_id in Hid. change (t_smack tcb_new) with BASE_STATE.
-  destruct (search_next (e_proto_tbl E) BASE_STATE s) as [[id st] n]. subst id. cbn [id_of t_proto t_pstate tcb_new].
+  destruct (search_next (e_proto_tbl E) BASE_STATE s) as [[id st] n]. subst id. cbn [id_of t_proto t_pstate].
   unfold dispatch.
   change (PROTO_RPC_TCP =? PROTO_HTTP) with false. change (PROTO_RPC_TCP =? PROTO_STUN) with false.
   change (PROTO_RPC_TCP =? PROTO_SSH) with false. change (PROTO_RPC_TCP =? PROTO_GHOST) with false.
   change (PROTO_RPC_TCP =? PROTO_RPC_TCP) with true. cbv iota.
   rewrite Hip, Hport. unfold tcb_new. cbn [t_pstate t_smack t_proto].
-  destruct (rpc_repl_tcp (rpc_new R_FRAG) ip port s) as [r' out] eqn:Hr. cbn [bind].
-  assert (r' = rpc_parse (rpc_new R_FRAG) ([] ++ s)) as -> by (unfold rpc_repl_tcp in Hr; destruct (_ =? R_END); inversion Hr; reflexivity).
-  pose proof (rpc_stream_tail E clk ci ip port Hip Hport rest st ([] ++ s)) as T. unfold rpc_tcb in T.
-  rewrite T. cbn [bind app].
-  do 2 f_equal. unfold rpc_expected. rewrite Hr. reflexivity.
+  destruct (rpc_repl_tcp (rpc_new R_FRAG) ip port s) as [r' out]. cbn [bind].
+  rewrite (rpc_flow E clk ci ip port Hip Hport). cbn [bind]. reflexivity.
 Qed.
 
+(* the reference: what each segment gets is a function of the stream prefix ending with it,
+   up to and including the segment that completes the first message; after that the flow
+   starts afresh *)
+Fixpoint rpc_stream_ref (ip : ipaddr) (port : N) (acc : bytes) (segs : list bytes) : list (option bytes) :=
+  match segs with
+  | [] => []
+  | s :: rest =>
+    rpc_expected ip port (acc ++ s) ::
+    (if r_state (rpc_parse (rpc_new R_FRAG) (acc ++ s)) =? R_END
+     then rpc_outs ip port (rpc_new R_FRAG) rest
+     else rpc_stream_ref ip port (acc ++ s) rest)
+  end.
+
+Theorem rpc_outs_stream ip port : forall segs acc,
+  rpc_outs ip port (rpc_parse (rpc_new R_FRAG) acc) segs = rpc_stream_ref ip port acc segs.
+Proof.
+  induction segs as [|s rest IH]; intros acc; [reflexivity|].
+  cbn [rpc_outs rpc_stream_ref]. unfold rpc_expected, rpc_repl_tcp. rewrite rpc_parse_app.
+  destruct (r_state (rpc_parse (rpc_new R_FRAG) (acc ++ s)) =? R_END).
+  - destruct (r_mtype _ =? 0); reflexivity.
+  - cbn [snd]. rewrite IH. reflexivity.
+Qed.
+
+Corollary rpc_stream_segmentation E clk ci ip port s rest :
+  ci_ip_dst ci = Some ip -> ci_port_dst ci = Some port ->
+  tcp_first_id E s = Some PROTO_RPC_TCP ->
+  tcp_stream E clk ci tcb_new (s :: rest) = Ok (rpc_stream_ref ip port [] (s :: rest)).
+Proof.
+  intros Hip Hport Hid. rewrite (rpc_stream E clk ci ip port s rest Hip Hport Hid).
+  f_equal. apply (rpc_outs_stream ip port (s :: rest) []).
+Qed.
+
+(* ---------- HTTP over TCP ---------- *)
+From MS Require Import Spec.EnvOk Spec.C11http Proofs.HttpFold Proofs.HttpParse.
+
+(* a flow identified as HTTP is the fold of http_repl over its segments *)
+Fixpoint http_outs (E : env) (clk : clock) (h : http_st) (segs : list bytes) : res (list (option bytes)) :=
+  match segs with
+  | [] => Ok []
+  | d :: rest =>
+    do x <- http_repl (e_http_tbl E) (e_http_pre E) (e_http_post E) (clk_date clk) h d;
+    do l <- http_outs E clk (fst x) rest;
+    Ok (snd x :: l)
+  end.
+
+Lemma http_flow E clk ci : forall segs st h,
+  tcp_stream E clk ci {| t_smack := st; t_proto := PROTO_HTTP; t_pstate := Some (PHttp h) |} segs
+  = http_outs E clk h segs.
+Proof.
+  induction segs as [|d rest IH]; intros st h; [reflexivity|].
+  cbn [tcp_stream http_outs].
+  unfold proto_repl_tcp at 1. cbn [t_proto].
+  change (PROTO_HTTP =? PROTO_NONE) with false. cbv iota.
+  unfold dispatch. cbn [t_proto]. change (PROTO_HTTP =? PROTO_HTTP) with true. cbv iota.
+  cbn [t_pstate t_smack].
+  destruct (http_repl _ _ _ _ h d) as [[h' o]|s]; cbn [bind fst snd]; [|reflexivity].
+  rewrite IH. destruct (http_outs E clk h' rest); reflexivity.
+Qed.
+
+Theorem http_stream E clk ci d rest :
+  tcp_first_id E d = Some PROTO_HTTP ->
+  tcp_stream E clk ci tcb_new (d :: rest) = http_outs E clk http_new (d :: rest).
+Proof.
+  intros Hid. cbn [tcp_stream http_outs].
+  unfold proto_repl_tcp at 1. change (t_proto tcb_new =? PROTO_NONE) with true. cbv iota.
+  unfold tcp_first_id in Hid. change (t_smack tcb_new) with BASE_STATE.
+  destruct (search_next (e_proto_tbl E) BASE_STATE d) as [[id st] n]. subst id. cbn [id_of t_proto t_pstate].
+  unfold dispatch. change (PROTO_HTTP =? PROTO_HTTP) with true. cbv iota.
+  unfold tcb_new. cbn [t_pstate t_smack t_proto].
+  destruct (http_repl _ _ _ _ http_new d) as [[h' o]|s]; cbn [bind fst snd]; [|reflexivity].
+  rewrite (http_flow E clk ci). destruct (http_outs E clk h' rest); reflexivity.
+Qed.
+
+Definition http_resp_of (E : env) (clk : clock) : bytes :=
+  http_response (e_http_pre E) (e_http_post E) (clk_date clk).
+
+Section HttpStream.
+  Variable E : env.
+  Variable clk : clock.
+  Hypothesis Hok : smack_ok (e_http_tbl E) = true.
+  Hypothesis Htbl : http_tbl_ok (e_http_tbl E) = true.
+  Let tbl := e_http_tbl E.
+
+  Lemma bytes_ok_concat_cons (d : bytes) (rest : list bytes) :
+    bytes_ok (concat (d :: rest)) = true -> bytes_ok d = true /\ bytes_ok (concat rest) = true.
+  Proof. cbn [concat]. rewrite bytes_ok_app. intros H. apply andb_true_iff in H. exact H. Qed.
+
+  (* the responder never gets stuck on a flow (no panic), whatever the segments *)
+  Lemma http_outs_total : forall segs h,
+    http_st_ok tbl h -> bytes_ok (concat segs) = true ->
+    exists outs, http_outs E clk h segs = Ok outs /\ length outs = length segs.
+  Proof.
+    induction segs as [|d rest IH]; intros h Hst Hb; [exists []; split; reflexivity|].
+    destruct (bytes_ok_concat_cons _ _ Hb) as [Hd Hr].
+    destruct (parse_sim_fold tbl Hok Htbl d h Hst Hd) as (s1 & s2 & P & _ & _ & Hs1 & _).
+    cbn [http_outs]. unfold http_repl. fold tbl. rewrite P. cbn [bind].
+    destruct (h_state s1 =? HTTP_CONTENT); cbn [bind fst snd].
+    - destruct (IH http_new (new_st_ok tbl Htbl) Hr) as (outs & -> & Hl). cbn [bind].
+      eexists. split; [reflexivity|]. cbn [length]. rewrite Hl. reflexivity.
+    - destruct (IH s1 Hs1 Hr) as (outs & -> & Hl). cbn [bind].
+      eexists. split; [reflexivity|]. cbn [length]. rewrite Hl. reflexivity.
+  Qed.
+
+  Lemma feed_answers_length : forall segs s l, http_feed_answers tbl s segs = Ok l -> length l = length segs.
+  Proof.
+    induction segs as [|x r IHr]; intros s l F; cbn [http_feed_answers] in F.
+    - inversion F. reflexivity.
+    - destruct (http_parse tbl s x) as [s'|e]; cbn [bind] in F; [|discriminate].
+      destruct (http_feed_answers tbl s' r) as [l'|e] eqn:G; cbn [bind] in F; [|discriminate].
+      inversion F. cbn [length]. rewrite (IHr _ _ G). reflexivity.
+  Qed.
+
+  (* up to and including the first answered segment, the flow follows the parser alone *)
+  Lemma http_outs_feed : forall segs h l,
+    http_st_ok tbl h -> bytes_ok (concat segs) = true ->
+    http_feed_answers tbl h segs = Ok l ->
+    exists outs, http_outs E clk h segs = Ok outs /\ length outs = length l /\
+      forall j, (forall i, (i < j)%nat -> nth i l false = false) ->
+                nth j outs None = (if nth j l false then Some (http_resp_of E clk) else None).
+  Proof.
+    induction segs as [|d rest IH]; intros h l Hst Hb Hf.
+    - cbn in Hf. inversion Hf; subst. exists []. repeat split; try reflexivity.
+      intros j _. destruct j; reflexivity.
+    - destruct (bytes_ok_concat_cons _ _ Hb) as [Hd Hr].
+      cbn [http_feed_answers] in Hf.
+      destruct (http_parse tbl h d) as [s1|e] eqn:P; cbn [bind] in Hf; [|discriminate].
+      destruct (http_feed_answers tbl s1 rest) as [l'|e] eqn:F; cbn [bind] in Hf; [|discriminate].
+      inversion Hf; subst l. clear Hf.
+      destruct (parse_sim_fold tbl Hok Htbl d h Hst Hd) as (s1' & s2 & P' & _ & _ & Hs1 & _).
+      rewrite P in P'. inversion P'; subst s1'. clear P'.
+      cbn [http_outs]. unfold http_repl. fold tbl. rewrite P. cbn [bind]. unfold http_answers.
+      destruct (h_state s1 =? HTTP_CONTENT) eqn:A; cbn [bind fst snd].
+      + destruct (http_outs_total rest http_new (new_st_ok tbl Htbl) Hr) as (outs & -> & Hl). cbn [bind].
+        eexists. split; [reflexivity|]. split.
+        { cbn [length]. rewrite Hl, (feed_answers_length _ _ _ F). reflexivity. }
+        intros j Hj. destruct j as [|j]; [reflexivity|].
+        exfalso. specialize (Hj 0%nat ltac:(lia)). cbn in Hj. discriminate.
+      + destruct (IH s1 l' Hs1 Hr F) as (outs & -> & Hl & Hn). cbn [bind].
+        eexists. split; [reflexivity|]. split; [cbn [length]; rewrite Hl; reflexivity|].
+        intros j Hj. destruct j as [|j]; [reflexivity|]. cbn [nth].
+        apply Hn. intros i Hi. apply (Hj (S i)). lia.
+  Qed.
+
+  (* the stream-level statement: which segment carries the (first) reply, and that everything
+     before it gets a bare ACK, is a function of the stream prefixes at the segment boundaries *)
+  Theorem http_stream_segmentation segs :
+    bytes_ok (concat segs) = true ->
+    exists l outs,
+      Forall2 (fun upto a => http_answers_at tbl http_new upto = Ok a) (prefixes_at [] segs) l /\
+      http_outs E clk http_new segs = Ok outs /\ length outs = length l /\
+      forall j, (forall i, (i < j)%nat -> nth i l false = false) ->
+                nth j outs None = (if nth j l false then Some (http_resp_of E clk) else None).
+  Proof.
+    intros Hb.
+    destruct (feed_answers tbl Hok Htbl segs http_new (new_st_ok tbl Htbl) Hb) as (l & Hf & Hall).
+    destruct (http_outs_feed segs http_new l (new_st_ok tbl Htbl) Hb Hf) as (outs & Ho & Hl & Hn).
+    exists l, outs. repeat split; assumption.
+  Qed.
+End HttpStream.
